@@ -203,15 +203,16 @@ theorem move_assign_fault_unchanged (w : World) (s d : Nat) (hw : w.heap.WF) (ht
               | some t => simp at hthrow
 
 /-- copy assignment with a throwing allocator (basic guarantee, as documented by the repair `9d9da98`): the source and
-    every other vector are unchanged; the target is a valid EMPTY vector that still owns a block of the recorded size; no
+    every other vector are unchanged; the target is a valid EMPTY vector that still owns a block of the recorded size (when the
+    offset table could not be allocated: in the new block, with capacity 0 until the next reserve); no
     ledger error, and when the data block allocation itself threw, the ledger is exactly as before -/
 theorem copy_assign_fault_world (w : World) (s d : Nat) (vs vd : Vec) (hw : w.heap.WF)
     (hvs : w.vecs s = some vs) (hvd : w.vecs d = some vd) (hsd : s ≠ d)
     (hown : Owns w.heap w.acfg vd.S vd.ptr) (hthrow : (w.copyAssign s d).threw = true) :
     (w.copyAssign s d).vecs s = some vs ∧ (∀ k, k ≠ d → (w.copyAssign s d).vecs k = w.vecs k) ∧
-    (∃ vd', (w.copyAssign s d).vecs d = some vd' ∧ vd'.size = 0 ∧ vd'.cap = vd.cap ∧ vd'.fs = vd.fs ∧
-      (vd'.ptr.blk = vd.ptr.blk ∧ vd'.ptr.units = vd.ptr.units ∧ (w.copyAssign s d).heap.live = w.heap.live ∨
-       Owns (w.copyAssign s d).heap w.acfg vd.S vd'.ptr)) ∧
+    (∃ vd', (w.copyAssign s d).vecs d = some vd' ∧ vd'.size = 0 ∧ vd'.fs = vd.fs ∧
+      (vd'.cap = vd.cap ∧ vd'.ptr.blk = vd.ptr.blk ∧ vd'.ptr.units = vd.ptr.units ∧ (w.copyAssign s d).heap.live = w.heap.live ∨
+       vd'.cap = 0 ∧ Owns (w.copyAssign s d).heap w.acfg vd.S vd'.ptr)) ∧
     (w.copyAssign s d).heap.errs = w.heap.errs := by
   have hclear_ptr : vd.clear.ptr = vd.ptr := rfl
   have hsize0 : ∀ (p : Ptr), (vd.clear.setPtr p).size = 0 := by
@@ -232,7 +233,7 @@ theorem copy_assign_fault_world (w : World) (s d : Nat) (vs vd : Vec) (hw : w.he
       simp only [World.set]
       rcases hcases with ⟨hbad, _⟩ | ⟨_, hlive, hblk, hunits⟩
       · exact absurd hbad (by simp)
-      · refine ⟨by simp [hsd, hvs], fun k hk => by simp [hk], ⟨vd.clear.setPtr p1, by simp, hsize0 p1, rfl, rfl, Or.inl ⟨?_, ?_, hlive⟩⟩, herr⟩
+      · refine ⟨by simp [hsd, hvs], fun k hk => by simp [hk], ⟨vd.clear.setPtr p1, by simp, hsize0 p1, rfl, Or.inl ⟨rfl, ?_, ?_, hlive⟩⟩, herr⟩
         · simpa [Vec.ptr, Vec.setPtr, Vec.clear] using hblk
         · simpa [Vec.ptr, Vec.setPtr, Vec.clear] using hunits
     | true =>
@@ -246,8 +247,8 @@ theorem copy_assign_fault_world (w : World) (s d : Nat) (vs vd : Vec) (hw : w.he
           | none =>
             obtain ⟨e1, e2, _⟩ := allocTable_fault _ _ _ _ _ ht
             simp only [World.set]
-            refine ⟨by simp [hsd, hvs], fun k hk => by simp [hk], ⟨vd.clear.setPtr p1, by simp, hsize0 p1, rfl, rfl, Or.inr ?_⟩, by rw [e2, herr]⟩
-            have : (vd.clear.setPtr p1).ptr = p1 := by cases p1; rfl
+            refine ⟨by simp [hsd, hvs], fun k hk => by simp [hk], ⟨{ (vd.clear.setPtr p1) with cap := 0 }, by simp, hsize0 p1, rfl, Or.inr ⟨rfl, ?_⟩⟩, by rw [e2, herr]⟩
+            have : ({ (vd.clear.setPtr p1) with cap := 0 } : Vec).ptr = p1 := by cases p1; rfl
             rw [this]
             unfold Owns at hown1 ⊢
             rw [e1]; exact hown1
